@@ -67,7 +67,8 @@ Definition v_fout (v : val) : nat * fitem := (v_nat (v_nth 0 v), v_fitem (v_nth 
 (** kinds: 4 / 5 / 6 = files through the sequential / interleaved / weighted generator
            input (k seed (file ...) orc), a file = its bytes; output as for item-list cases, items = (tag fitem)
           7 = a JSON text: (7 0 text ()) -> (1 tree) | (0)
-          8 = an item to print: (8 0 (input) ()) | (8 0 (input target) ()) -> the line (code points)
+          8 = an item to print: (8 w (input) ()) | (8 w (input target) ()) -> the line (code points);
+              w = 0: serde_json::to_string, w = 1: Python's json.dumps (ensure_ascii)
           9 = a byte string through the line reader: (9 cap bytes ()) -> (lines count) *)
 Definition kind (v : val) : Z := v_z (v_nth 0 v).
 Definition is_file_case (v : val) : bool := (Z.leb 4 (kind v) && Z.leb (kind v) 6)%Z.
@@ -129,7 +130,9 @@ Definition run_json_case (v : val) : val :=
 
 Definition run_print_case (v : val) : val :=
   let a := v_nth 2 v in
-  str_v (line_of (v_str (v_nth 0 a)) (match a with L [_; t] => Some (v_str t) | _ => None end)).
+  let i := v_str (v_nth 0 a) in
+  let t := match a with L [_; t] => Some (v_str t) | _ => None end in
+  str_v (if Z.eqb (v_z (v_nth 1 v)) 1 then line_of_py i t else line_of i t).
 
 Definition run_lines_case (v : val) : val :=
   let b := v_list v_n (v_nth 2 v) in
